@@ -13,8 +13,9 @@ const PATHS: [&str; 5] = ["/page", "/api/x", "/api/deep/y", "/", "/index.html"];
 type RuleSpec = (String, bool, Vec<String>, Option<Vec<String>>, Vec<String>, u64);
 
 fn gen_rules(rng: &mut Rng) -> Vec<RuleSpec> {
-    let pats = ["/page", "/api/*", "/api/deep/*", "/*", "/", "/index.html"];
-    (0..rng.range(0, 3))
+    // exact paths, wildcards over directories, and wildcards that extend an exact path by one character (`/page*`)
+    let pats = ["/page", "/api/*", "/api/deep/*", "/*", "/", "/index.html", "/page*", "/pag*", "/api/x", "/api/x*", "/api/deep/y*"];
+    (0..rng.range(0, 4))
         .map(|_| {
             let origins: Vec<String> = (0..rng.below(3)).map(|_| (*rng.pick(&["http://other.test", "https://other.test", "https://other.test:444", "https://third.test", "other.test"])).to_owned()).collect();
             let methods = if rng.chance(1, 4) { None } else { Some((0..rng.range(1, 3)).map(|_| (*rng.pick(&["GET", "POST", "PUT", "OPTIONS", "HEAD"])).to_owned()).collect()) };
@@ -43,14 +44,27 @@ impl Group for Decisions {
         "c13.respond"
     }
     fn rule(&self) -> &'static str {
-        "a real loopback server with Extensions::new() + with_cors(rule set): 0-3 rules over exact and wildcard paths sharing prefixes, origin lists, method lists, allow-all flags, default and permissive status filter; one keep-alive connection carrying 6-12 requests over 5 paths (incl. `/` and /index.html) x methods GET/POST/PUT/OPTIONS(+preflight) x 14 Origin values (same / different scheme, host, port, case, `null`, `localhost`, empty, path suffix, userinfo, non-ASCII) interleaved with same-origin requests that warm the cache; per response: status, whether the target handler ran (invocation counter), ACAO, preflight headers — compared with the model given the most specific rule (independent resolver) and the Origin as parsed by the real Uri type; oracle: a reference decision written from the statement; non-trivial = the case has a cross-origin request"
+        "a real loopback server with Extensions::new() + with_cors(rule set): 0-4 rules over exact and wildcard paths sharing prefixes (incl. wildcards one character longer than an exact rule, `/page` + `/page*`, in both insertion orders), origin lists, method lists, allow-all flags, default and permissive status filter; one keep-alive connection carrying 6-12 requests over 5 paths (incl. `/` and /index.html) x methods GET/POST/PUT/OPTIONS(+preflight) x 14 Origin values (same / different scheme, host, port, case, `null`, `localhost`, empty, path suffix, userinfo, non-ASCII) interleaved with same-origin requests that warm the cache; per response: status, whether the target handler ran (invocation counter), ACAO, preflight headers — compared with the model given the most specific rule (independent resolver) and the Origin as parsed by the real Uri type; oracle: a reference decision written from the statement; non-trivial = the case has a cross-origin request"
     }
     fn parallel(&self) -> bool {
         false
     }
     fn generate(&self, ctx: &Ctx, rng: &mut Rng) -> Vec<String> {
         let n = if ctx.mode == Mode::Quick { 30 } else { 800 };
-        (0..n)
+        // an exact rule and a wildcard rule one character longer, with different origin lists, both insertion orders
+        let fixed = |pairs: &[(&str, &str)], path_idx: usize| -> String {
+            let rules: Vec<RuleSpec> = pairs.iter().map(|(pat, origin)| ((*pat).to_owned(), false, vec![(*origin).to_owned()], Some(vec!["GET".to_owned(), "PUT".to_owned()]), vec!["x-a".to_owned()], 60u64)).collect();
+            let rules_s = list(rules.iter().map(|r| format!("{}|{}", hex(r.0.as_bytes()), spec_str(r).replace('/', "!"))));
+            let reqs = list(["https://other.test", "https://third.test", "http://site.test"].iter().flat_map(|o| ["GET", "PUT", "OPTIONS+"].iter().map(move |m| format!("{m}@{path_idx}@{}", hex(o.as_bytes())))));
+            format!("c13.respond 0 {rules_s} {reqs}")
+        };
+        let mut v = vec![
+            fixed(&[("/page", "https://other.test"), ("/page*", "https://third.test")], 0),
+            fixed(&[("/page*", "https://third.test"), ("/page", "https://other.test")], 0),
+            fixed(&[("/api/x", "https://other.test"), ("/api/x*", "https://third.test"), ("/api/*", "https://third.test")], 1),
+            fixed(&[("/api/deep/y*", "https://third.test"), ("/api/deep/*", "https://other.test")], 2),
+        ];
+        v.extend((0..n)
             .map(|_| {
                 let rules = gen_rules(rng);
                 let rules_s = list(rules.iter().map(|r| format!("{}|{}", hex(r.0.as_bytes()), spec_str(r).replace('/', "!"))));
@@ -61,8 +75,8 @@ impl Group for Decisions {
                     format!("{m}@{}@{o}", rng.below(PATHS.len()))
                 }));
                 format!("c13.respond {} {rules_s} {reqs}", b01(rng.chance(1, 4)))
-            })
-            .collect()
+            }));
+        v
     }
     fn driver_line(&self, _l: &str) -> String {
         "c13.respond norule 474554 none none none none 0 200".into()
